@@ -509,6 +509,207 @@ def D16():
     return r[0] == 'raise' and r[1] in ('TypeError', 'UnsupportedAnnotation'), f"Tagged over a member without the tag attribute: {r!r}"
 
 
+def D31():
+    import pane, collections, collections.abc
+    from pane.annotations import Tagged
+    class A(pane.PaneBase):
+        kind: t.Literal['a'] = 'a'
+        x: int = 0
+    class B(pane.PaneBase):
+        kind: t.Literal['b'] = 'b'
+        y: int = 0
+    class M(collections.abc.Mapping):
+        def __init__(s, d): s.d = d
+        def __getitem__(s, k): return s.d[k]
+        def __iter__(s): return iter(s.d)
+        def __len__(s): return len(s.d)
+    U = t.Annotated[t.Union[A, B], Tagged('kind')]
+    r1 = _outcome(lambda: pane.from_data(M({'kind': 'a', 'x': 1}), U))
+    r2 = _outcome(lambda: pane.from_data(collections.ChainMap({}, {'kind': 'a', 'x': 1}), U))
+    r3 = _outcome(lambda: pane.from_data(M({'kind': 'a', 'x': 'bad'}), U))
+    holds = r1[0] == 'ok' and r1[1] == A(x=1) and r2[0] == 'ok' and r2[1] == A(x=1) and r3[:2] == ('raise', 'ConvertError')
+    return holds, f"internally tagged union fed a Mapping without .copy() / a ChainMap with the tag in a later map: {r1!r} / {r2!r} / {r3!r}"
+
+
+def D32():
+    import pane
+    T = t.TypeVar('T'); U = t.TypeVar('U')
+    class G(pane.PaneBase, t.Generic[T]):
+        x: T
+    class GI(G[U]):
+        y: U
+    a = G[U][int](1) == G[int](1)
+    b = GI[int](1, 2) == GI[T][int](1, 2)
+    c = G[int](1) == G[t.Any](1)
+    class A(G[int]):
+        pass
+    d = A(1) != G[int](1)     # an ordinary subclass stays another class
+    return a and b and c and d, f"G[U][int](1) == G[int](1): {a}; GI[int](1,2) == GI[T][int](1,2): {b}; G[int](1) == G[Any](1): {c}; subclass differs: {d}"
+
+
+def D33():
+    import pane
+    T = t.TypeVar('T')
+    class G(pane.PaneBase, t.Generic[T]):
+        x: T
+    r = [_outcome(lambda: G[int](1) < G[t.Any](2)), _outcome(lambda: G[int](1) <= G[t.Any](1)), _outcome(lambda: G[int](2) > G[t.Any](1)),
+         _outcome(lambda: G[int](1) >= G[t.Any](1))]
+    class H(pane.PaneBase):
+        x: int
+    other = _outcome(lambda: G[int](1) < H(2))
+    return all(x == ('ok', True) for x in r) and other[:2] == ('raise', 'TypeError'), f"G[int](1) <,<=,>,>= G[Any](..): {r!r}; against another class: {other!r}"
+
+
+def D34():
+    import pane
+    class P(pane.PaneBase):
+        a: t.Optional[int] = None
+        b: t.Optional[int] = None
+        def __post_init__(self):
+            if len(self.__pane_set__) != 1:
+                raise ValueError('exactly one of a, b')
+    r1 = _outcome(lambda: P.from_data({'a': 1}))
+    r2 = _outcome(lambda: P.from_data({'a': 1, 'b': 2}))
+    r3 = _outcome(lambda: P(a=1))
+    r4 = _outcome(lambda: P.from_data({'a': 1}).dict(set_only=True))
+    holds = r1 == ('ok', P(a=1)) and r2[:2] == ('raise', 'ConvertError') and r3 == ('ok', P(a=1)) and r4 == ('ok', {'a': 1})
+    return holds, f"a hook that reads the set record: from_data({{'a': 1}}) -> {r1!r}; both given -> {r2[:2]!r}; constructor -> {r3!r}; set record -> {r4!r}"
+
+
+def D35():
+    import pane, warnings
+    T = t.TypeVar('T')
+    class H(pane.PaneBase, t.Generic[T]):
+        x: {'a': T, 'b': t.List[T]}
+    with warnings.catch_warnings():
+        warnings.simplefilter('error')
+        ty = H[int].__pane_info__.fields[0].type
+        r1 = _outcome(lambda: pane.from_data({'x': {'a': 'str', 'b': []}}, H[int]))
+        r2 = _outcome(lambda: pane.from_data({'x': {'a': 1, 'b': [2]}}, H[int]))
+    holds = ty['a'] is int and t.get_args(ty['b']) == (int,) and r1[:2] == ('raise', 'ConvertError') and r2[0] == 'ok'
+    return holds, f"struct type literal field of a generic dataclass: H[int] field type {ty!r}; wrong data -> {r1[:2]!r}; right data -> {r2!r}"
+
+
+def D36():
+    import pane
+    T = t.TypeVar('T')
+    class G(pane.PaneBase, t.Generic[T]):
+        x: T
+    r1 = _outcome(lambda: G[None].from_data({'x': None}))
+    r2 = _outcome(lambda: G[None].from_data({'x': 1}))
+    return r1[0] == 'ok' and r1[1].x is None and r2[:2] == ('raise', 'ConvertError'), f"G[None]: from_data({{'x': None}}) -> {r1!r}; from_data({{'x': 1}}) -> {r2[:2]!r}"
+
+
+def D37():
+    import pane
+    from pane.annotations import Finite
+    r1 = _outcome(lambda: pane.from_data(10 ** 400, t.Annotated[int, Finite]))
+    r2 = _outcome(lambda: pane.from_data(float('inf'), t.Annotated[float, Finite]))
+    r3 = _outcome(lambda: pane.from_data(-10 ** 400, t.List[t.Annotated[int, Finite]]) if False else pane.from_data([-10 ** 400], t.List[t.Annotated[int, Finite]]))
+    holds = r1 == ('ok', 10 ** 400) and r2[:2] == ('raise', 'ConvertError') and r3 == ('ok', [-10 ** 400])
+    return holds, f"Finite on 10**400 -> {str(r1)[:40]}...; on inf -> {r2[:2]!r}"
+
+
+def D38():
+    import pane, io, datetime
+    r1 = _outcome(lambda: pane.io.from_yaml(io.StringIO('2020-01-02'), datetime.date))
+    r2 = _outcome(lambda: pane.from_data(datetime.datetime(2020, 1, 2, 3, 4), datetime.date))
+    r3 = _outcome(lambda: pane.io.from_yaml(io.StringIO('2020-01-02'), int))
+    r4 = _outcome(lambda: pane.from_data(object(), int))
+    holds = r1 == ('ok', datetime.date(2020, 1, 2)) and r2 == ('ok', datetime.date(2020, 1, 2)) and r3[:2] == ('raise', 'ConvertError') and r4[:2] == ('raise', 'TypeError')
+    return holds, f"from_yaml of the document `2020-01-02` as a date -> {r1!r}; as an int -> {r3[:2]!r}; from_data(datetime, date) -> {r2!r}"
+
+
+def N9():
+    import pane
+    def f():
+        try:
+            pane.from_data(10 ** 5000, str)
+        except pane.ConvertError as e:
+            return str(e)[:40]
+    r = _outcome(f)
+    return r[0] == 'ok', f"str(ConvertError) for the input 10**5000: {r[:2]!r}"
+
+
+def N10():
+    import pane
+    from pane.converters import Converter
+    class Dbl(Converter):
+        def expected(self, plural=False): return 'dbl'
+        def try_convert(self, v): return v * 2
+        def collect_errors(self, v): return None
+        def into_data(self, v): return v // 2
+    class Inner(pane.PaneBase):
+        x: int
+    class Outer(pane.PaneBase):
+        inner: t.Optional[Inner] = None
+    C = {int: Dbl()}
+    a = _outcome(lambda: pane.into_data(Outer(inner=Inner(10)), custom=C))
+    b = _outcome(lambda: pane.from_data({'inner': {'x': 10}}, Outer, custom=C))
+    holds = a == ('ok', {'inner': {'x': 5}}) and b[0] == 'ok' and b[1].inner.x == 20
+    return holds, f"call-level handler {{int: halve/double}} and a dataclass instance inside Optional: into_data -> {a!r}, from_data -> {b!r}"
+
+
+def N11():
+    import pane
+    T = t.TypeVar('T'); U = t.TypeVar('U')
+    class A(pane.PaneBase, t.Generic[T]):
+        x: T
+    class B(pane.PaneBase, t.Generic[U]):
+        y: U
+    class Inner(pane.PaneBase, t.Generic[T]):
+        v: T
+    def two():
+        class D(A[int], B[U]):
+            pass
+        return D.__parameters__, D[str].from_data({'x': 1, 'y': 's'})
+    r1 = _outcome(two)
+    r2 = _outcome(lambda: A[Inner[U]][int].from_data({'x': {'v': 1}}))
+    holds = r1[0] == 'ok' and r2[0] == 'ok'
+    return holds, f"class D(A[int], B[U]); D[str] -> {r1[:2]!r}; A[Inner[U]][int] -> {r2[:2]!r}"
+
+
+def N12():
+    import pane, io, collections
+    x = collections.OrderedDict([('b', 1), ('a', 2)])
+    f = io.StringIO()
+    pane.io.write_json(x, f, ty=t.OrderedDict[str, int], sort_keys=True)
+    f.seek(0)
+    y = pane.io.from_json(f, t.OrderedDict[str, int])
+    return y == x, f"OrderedDict([('b',1),('a',2)]) written with sort_keys=True reads back as {y!r}"
+
+
+def N13():
+    import pane, copy
+    class R(pane.PaneBase):
+        x: int = 1
+        z: str = pane.field(init=False, compare=False)
+    class Q(pane.PaneBase, frozen=False):
+        x: int = 1
+        z: str = pane.field(init=False, default='d')
+    a = _outcome(lambda: copy.copy(R()))
+    def rep():
+        q = Q(); q.z = 'c'
+        return q.__replace__(x=2)
+    b = _outcome(rep)
+    return a[0] == 'ok' and b[0] == 'ok', f"copy of an instance whose init=False field is unset -> {a[:2]!r}; replace after assigning an init=False field -> {b[:2]!r}"
+
+
+def N14():
+    import pane
+    from pane.annotations import Tagged
+    class T1(pane.PaneBase, out_format='tuple', in_format=('tuple', 'struct')):
+        kind: t.Literal['t1'] = 't1'
+        x: int = 0
+    class T2(pane.PaneBase, out_format='tuple', in_format=('tuple', 'struct')):
+        kind: t.Literal['t2'] = 't2'
+        y: int = 0
+    U = t.Annotated[t.Union[T1, T2], Tagged('kind')]
+    d = _outcome(lambda: pane.into_data(T1(x=3), U))
+    back = _outcome(lambda: pane.from_data(d[1], U)) if d[0] == 'ok' else None
+    return bool(back) and back[0] == 'ok' and back[1] == T1(x=3), f"internally tagged union over tuple-format variants: into_data -> {d!r}; read back -> {back and back[:2]!r}"
+
+
 WITNESSES = {k: v for k, v in dict(globals()).items() if k[:1] in 'DNK' and k[1:].isdigit() and callable(v)}
 
 if __name__ == '__main__':
